@@ -1555,6 +1555,18 @@ func putdomtext(w io.Writer, a []byte) {
 	}
 }
 
+// putmapdomtext writes the name of a map line: the "*." of a wildcard map is
+// kept as is ("*." alone is the wildcard map of the root)
+func putmapdomtext(w io.Writer, a []byte) {
+	if bytes.HasPrefix(a, []byte("*.")) {
+		if _, err := w.Write([]byte("*.")); err != nil {
+			glog.Errorf("%v", err)
+		}
+		a = a[2:]
+	}
+	putdomtext(w, a)
+}
+
 // write a two-byte location ID
 func putloc(w io.Writer, lo Loc) {
 	var err error
